@@ -334,7 +334,44 @@ def runtime_log(chk):
         )
 
 
+def read_while_open(chk):
+    """O13.7: the YAML document is read while its stream is open (PyYAML reads lazily in 4096-character chunks: a
+    document that is parsed after the `with open(...)` block has ended fails as soon as it is longer than one chunk)"""
+    prog = chk.program
+    rule = "O13.7"
+    fi = prog.func(YAML_LOAD)
+    inline = lambda f, ct: f.cls is None and f.module is fi.module and f is not fi  # noqa: E731
+    n = 0
+    ok = True
+    for o in Interp(prog, fi, inline=inline).run():
+        evs = o.path.events
+        opens = [i for i, e in enumerate(evs) if e[0] == "with-enter" and strip_sites(e[1])[0] == "call" and strip_sites(e[1])[1] == ("glob", "ext:builtins.open")]
+        if not opens:
+            # no `with open`: a stream that is opened and never closed by this function is read while open
+            continue
+        i0 = opens[0]
+        closes = [i for i, e in enumerate(evs) if e[0] == "with-exit" and i > i0]
+        i1 = closes[0] if closes else len(evs)
+        stream = ("enter", evs[i0][1])
+        for i, e in enumerate(evs):
+            if e[0] != "call" or e[1][1][0] != "attr":
+                continue
+            recv = e[1][1][1]
+            if stream not in list(subterms(recv)) or e[1][1][2] in ("dispose", "close"):
+                continue
+            n += 1
+            chk.count()
+            if not (i0 < i < i1):
+                chk.bad(rule, fi.qual, "%s is called after the `with open(...)` block of its stream has ended: the document is parsed from a closed file (fails for every configuration longer than PyYAML's 4096-character read chunk)" % show(strip_sites(e[1][1])), node=fi.node, stmt="read-after-close %s" % e[1][1][2])
+                ok = False
+    if ok and n:
+        chk.ok(rule, fi.qual, "every read through the loader instance lies inside the with-block that keeps its stream open (%d reads)" % n, node=fi.node)
+    elif ok:
+        chk.undecided(rule, fi.qual, "no read through a loader built on a `with open(...)` stream found", node=fi.node, aux=True)
+
+
 def run(chk):
+    chk.guard("O13.7", YAML_LOAD, read_while_open, chk)
     chk.guard("O13.6", "configure_logging", runtime_log, chk)
     chk.guard("O13.1", RUN, startup, chk)
     chk.guard("O13.2", LOAD_SERVICES, keep_alive, chk)
